@@ -4,14 +4,20 @@ from aiokafka.errors import CorruptRecordException
 # VarInt implementation
 
 cdef inline int decode_varint64(
-        char* buf, Py_ssize_t* read_pos, int64_t* out_value) except -1:
+        char* buf, Py_ssize_t buf_len, Py_ssize_t* read_pos,
+        int64_t* out_value) except -1:
     cdef:
         int shift = 0
         char byte
         Py_ssize_t pos = read_pos[0]
         uint64_t value = 0
 
+    if pos < 0:
+        raise CorruptRecordException("Can't read varint from pos %d" % (pos, ))
     while True:
+        if pos >= buf_len:
+            raise CorruptRecordException(
+                "Can't read varint: reached the end of the buffer")
         byte = buf[pos]
         pos += 1
         if byte & 0x80 != 0:
@@ -88,9 +94,9 @@ def decode_varint_cython(buffer, pos=0):
 
     PyObject_GetBuffer(buffer, &buf, PyBUF_SIMPLE)
     try:
-        decode_varint64(<char*>buf.buf, &read_pos, &out_value)
-    except CorruptRecordException:
-        raise ValueError("Out of double range")
+        decode_varint64(<char*>buf.buf, buf.len, &read_pos, &out_value)
+    except CorruptRecordException as exc:
+        raise ValueError(str(exc))
     finally:
         PyBuffer_Release(&buf)
     return out_value, read_pos
